@@ -454,7 +454,101 @@ class Algebra:
                             cur.add(a)
                         if not bad:
                             out.append((frozenset(cur), v))
-        return out
+        return self._resolve_helper_results(out)
+
+    def _helper_calls(self, e, acc):
+        """private-helper calls whose result is looked into: `(h(..) as Ok).0`, `is_ok(h(..))`"""
+        if not isinstance(e, tuple) or not e:
+            return
+        inner = None
+        if e[0] == "field" and isinstance(e[1], tuple) and e[1] and e[1][0] == "variant" and e[1][2] in ("Ok", "Err", "Some"):
+            inner = e[1][1]
+        elif e[0] == "call" and e[1] in (IS_OK, IS_SOME) and len(e[2]) == 1:
+            inner = e[2][0]
+        if inner is not None and inner[0] == "call" and isinstance(inner[1], str) and inner not in acc:
+            raws = self.crate.get("_raw_by_key", {}).get(inner[1])
+            if raws and len(raws) == 1 and raws[0]["kind"] in ("Fn", "AssocFn") and str(raws[0].get("vis", "")).startswith("Restricted"):
+                acc.append(inner)
+        for x in e:
+            if isinstance(x, tuple):
+                self._helper_calls(x, acc)
+
+    def _resolve_helper_results(self, rows, fuel=3):
+        """`let v = helper(x)?; ..v..`: the rest of the function speaks about `(helper(x) as Ok).0`;
+        with the helper's own case table that is the payload of each of its Ok cases, under the
+        case's conditions (and the row is dropped where the helper's case contradicts it)."""
+        if fuel == 0 or self.depth >= 3:
+            return rows
+        out = []
+        changed = False
+        for conds, v in rows:
+            acc = []
+            self._helper_calls(v, acc)
+            for ee, _ in conds:
+                self._helper_calls(ee, acc)
+            inl = None
+            for c in acc:
+                inl = self.inline_private(c[1], c[2], c[3] if len(c) > 3 else ())
+                if inl and all(hv[0] == "agg" and hv[1] in (OK, ERR, SOME, NONE) for _, hv in inl):
+                    break
+                inl = None
+            if not inl:
+                out.append((conds, v))
+                continue
+            changed = True
+            for at, hv in inl:
+                v2 = self.rewrite(self._fold_payloads(_replace_subterm(v, c, hv)))
+                cur, bad = set(), False
+                for (ee, val) in list(conds) + [x for x in at if x[0][0] != "pc-of"]:
+                    if ee[0] == "effect":
+                        cur.add((ee, val))
+                        continue
+                    e2 = self._fold_payloads(_replace_subterm(ee, c, hv)) if _has_subterm(ee, c) else ee
+                    if e2[0] == "call" and e2[1] in (IS_OK, IS_SOME) and len(e2[2]) == 1 and e2[2][0][0] == "agg":
+                        holds = e2[2][0][1] in (OK, SOME)
+                        if holds != val:
+                            bad = True
+                            break
+                        continue
+                    if _has_subterm(e2, ("variant", hv, "Ok")) or _has_subterm(e2, ("variant", hv, "Err")) or _has_subterm(e2, ("variant", hv, "Some")):
+                        bad = True      # speaks about the payload of the other variant
+                        break
+                    a_ = S.normalise_atom(self.rewrite(e2), val) if e2 is not ee else (ee, val)
+                    f_ = S.fold_atom(a_[0], a_[1])
+                    if f_ is False:
+                        bad = True
+                        break
+                    if f_ is True:
+                        continue
+                    if any(x == a_[0] and S._contradict(y, a_[1]) for (x, y) in cur):
+                        bad = True
+                        break
+                    cur.add(a_)
+                if not bad and not (_has_subterm(v2, ("variant", hv, "Ok")) or _has_subterm(v2, ("variant", hv, "Err")) or _has_subterm(v2, ("variant", hv, "Some"))):
+                    out.append((frozenset(cur), v2))
+        return self._resolve_helper_results(out, fuel - 1) if changed else out
+
+
+def site_cases(ctx, body, blk, node):
+    """An operand as evaluated at block `blk`: one row (path atoms, value) per disjunct of the path
+    condition, with locals that were assigned on the branch taken (`let msg = if .. {Some(a)} else
+    {None}` and a later `if let Some(m) = msg`) replaced by the value of that branch.  One call fed
+    by a value chosen earlier and one call per branch read the same."""
+    alg = Algebra(body.crate)
+    s, pc = ctx.sym(body)
+    alg.body, alg.sym = body, s
+    e = S.strip_transparent(s.operand(node) if node.get("k") in ("copy", "move", "const") else s.place(node))
+    out = []
+    for cs0 in pc.conditions(blk, keep_phi=True):
+        env = {e2[1]: x for (e2, x) in cs0 if e2[0] == "phi"}
+        v = e
+        if env and S._mentions_local(e, set(env)):
+            v = alg._fold_payloads(S.subst_locals(e, env))
+        v = S.strip_transparent(alg.rewrite(v))
+        row = (frozenset(S.atom_str(e2, v2, s) for (e2, v2) in cs0 if e2[0] != "phi"), S.show(v, s))
+        if row not in out:
+            out.append(row)
+    return out
 
 
 def expr_cases(ctx, body, node):
